@@ -19,6 +19,7 @@ namespace vf
 {
 thread_local int64_t  g_now_ns = BASE_NS;
 int                   g_hash_mode = 0;
+int                   g_val_eq_mode = 0;
 thread_local ValStats g_vs;
 } // namespace vf
 
@@ -99,7 +100,7 @@ static std::string write_replay(const Args& a, const std::vector<Op>& hist, cons
     snprintf(
         b,
         sizeof b,
-        "engine seqmc\ncontainer %s\ncfg %d %d %d %d %g %d %d %g\nprops %s\nclause %s\n",
+        "engine seqmc\ncontainer %s\ncfg %d %d %d %d %g %d %d %g %d\nprops %s\nclause %s\n",
         g_ckname,
         a.cfg.cap,
         a.cfg.nkeys,
@@ -109,6 +110,7 @@ static std::string write_replay(const Args& a, const std::vector<Op>& hist, cons
         a.cfg.ttl_ms,
         a.cfg.tick_ms,
         a.cfg.ratio,
+        a.cfg.valeq,
         props.c_str(),
         clause.c_str());
     body += b;
@@ -186,7 +188,7 @@ struct Engine
     std::vector<Node>                  nodes;
     std::unordered_set<H128, H128H>    seen;
     std::unordered_map<uint64_t, int>  seen_depth; // only filled up to sweep depth
-    long                               transitions{0}, states{0}, foreign{0}, unattr{0}, execs{0};
+    long                               transitions{0}, states{0}, foreign{0}, unattr{0}, execs{0}, adopted{0};
     int                                max_depth{0};
     bool                               fixpoint{false}, capped{false};
     double                             t0;
@@ -683,6 +685,27 @@ struct Engine
                     if (a.verbose)
                         fprintf(stderr, "foreign %s: %s after %s\n", pm_str(all).c_str(), vs[0].what.c_str(), (hist_str(hist) + "; " + op_str(op)).c_str());
                 }
+                // Eviction-policy runs (C10-C16): a deviation that is nothing but the unexpected loss of
+                // live keys (retention, C03/C05's business) is adopted - the keys are simply gone - and the
+                // search continues, because which resident a later forced eviction picks is still well
+                // defined on the observed residents.
+                bool only_losses = !mine && a.prop >= 10 && a.prop <= 16;
+                for (auto& v : vs)
+                    if (v.lost <= 0)
+                        only_losses = false;
+                if (only_losses)
+                {
+                    for (auto& v : vs)
+                    {
+                        post.e[v.lost].present = 0;
+                        post.e[v.lost].inE     = 0;
+                        post.e[v.lost].rej     = 0;
+                    }
+                    adopted++;
+                    if (is_range(op.k))
+                        continue;
+                    goto accept;
+                }
                 if (mine || !a.noprune)
                     continue; // never expand past a deviation
                 // C08 runs: the memory-safety oracle does not depend on the model, so keep exploring
@@ -705,6 +728,7 @@ struct Engine
             }
             if (is_range(op.k))
                 pc.emplace(prefix_key(op, op.n), std::make_pair(post, t.r));
+        accept:
             if (ck == CK::rr && op.k == OpK::Insert && a.rngq_all && m.obs.size >= cfg.cap && !SP::live(m, op.key[0]) &&
                 (op.allow & 1))
             {
@@ -985,7 +1009,7 @@ struct Engine
         printf("RESULT {\"container\":\"%s\",\"prop\":\"C%02d\",\"mode\":\"%s\",", g_ckname, a.prop, a.mode.c_str());
         printf(
             "\"cfg\":{\"cap\":%d,\"nkeys\":%d,\"ts\":%d,\"hash\":%d,\"lf\":%g,\"ttl_ms\":%d,\"tick_ms\":%d,\"ratio\":%g,"
-            "\"rangelen\":%d,\"devs\":%d,\"cmax\":%d,\"rngq_all\":%d,\"alphabet\":%zu},",
+            "\"rangelen\":%d,\"devs\":%d,\"cmax\":%d,\"rngq_all\":%d,\"valeq\":%d,\"alphabet\":%zu},",
             cfg.cap,
             cfg.nkeys,
             cfg.ts,
@@ -998,6 +1022,7 @@ struct Engine
             a.devs,
             a.kn.cmax,
             a.rngq_all,
+            cfg.valeq,
             base_alpha.size());
         printf(
             "\"states\":%ld,\"transitions\":%ld,\"executions\":%ld,\"max_depth\":%d,\"fixpoint\":%s,\"capped\":%s,"
@@ -1087,6 +1112,8 @@ int main(int argc, char** argv)
             a.cfg.tick_ms = atoi(nx());
         else if (s == "--ratio")
             a.cfg.ratio = atof(nx());
+        else if (s == "--valeq")
+            a.cfg.valeq = atoi(nx());
         else if (s == "--ttlset")
         {
             a.ttlset.clear();
@@ -1154,7 +1181,8 @@ int main(int argc, char** argv)
             if (!strncmp(line, "cfg ", 4))
             {
                 double lf, ratio;
-                sscanf(line + 4, "%d %d %d %d %lf %d %d %lf", &a.cfg.cap, &a.cfg.nkeys, &a.cfg.ts, &a.cfg.hash, &lf, &a.cfg.ttl_ms, &a.cfg.tick_ms, &ratio);
+                a.cfg.valeq = 0;
+                sscanf(line + 4, "%d %d %d %d %lf %d %d %lf %d", &a.cfg.cap, &a.cfg.nkeys, &a.cfg.ts, &a.cfg.hash, &lf, &a.cfg.ttl_ms, &a.cfg.tick_ms, &ratio, &a.cfg.valeq);
                 a.cfg.lf    = (float)lf;
                 a.cfg.ratio = (float)ratio;
             }
@@ -1177,6 +1205,7 @@ int main(int argc, char** argv)
     }
     a.kn.track_rej = (a.prop == 9);
     g_hash_mode    = a.cfg.hash;
+    g_val_eq_mode  = a.cfg.valeq;
     signal(SIGALRM, on_signal);
     signal(SIGABRT, on_signal);
     if (__sanitizer_set_death_callback)
@@ -1184,6 +1213,10 @@ int main(int argc, char** argv)
     else
         signal(SIGSEGV, on_signal);
     if (a.cfg.ts)
+    {
+        warm_up_other_instance<Ad<ck, cappuccino::thread_safe::yes>>();
         return run<Ad<ck, cappuccino::thread_safe::yes>>(a, replay_ops);
+    }
+    warm_up_other_instance<Ad<ck, cappuccino::thread_safe::no>>();
     return run<Ad<ck, cappuccino::thread_safe::no>>(a, replay_ops);
 }
